@@ -151,7 +151,7 @@ def main():
         c = dict(c, base=(("lda", "gga", "ssos")[(k // 2) % 3] if c["mix"] == "libxc2" else ("lda", "gga", "damp" if (c["sl"] == "npa" and c["nldf"] != "none") else "gga", "chachiyo")[(k // 2) % 4]))
         if k % 3 == 0:
             c = dict(c, fl="rich")        # composite feature transforms with repeated argument indices (driver-side dimension)
-        jobs.append({"id": k, "cfg": c, "seed": ck.seed * 1000 + k, "unrestricted": u, "mol": "OH" if u else "H2O",
+        jobs.append({"id": k, "cfg": c, "seed": ck.seed * 1000 + k, "unrestricted": u, "mol": (("H" if k % 12 == 7 else "OH") if u else ("H2O_ghost" if k % 12 == 6 else "H2O")),
                      "basis": ("cc-pvdz" if k % 4 == 0 else "sto-3g") if quick else ("cc-pvdz", "sto-3g", "6-31g*", "sto-3g", "6-31g")[k % 5], "ndir": 2})
     ck.log("replaying %d configurations end to end" % len(jobs))
     results = run_workers(os.path.abspath(__file__), [[j] for j in jobs] and jobs, nproc=16, timeout=7000)
